@@ -244,6 +244,12 @@ func (l *listener) GetOption(n string) (interface{}, error) {
 	switch n {
 	case mangos.OptionMaxRecvSize:
 		return l.maxRcvSize, nil
+	case OptionIpcSocketPermissions:
+		return l.mode, nil
+	case OptionIpcSocketOwner:
+		return l.owner, nil
+	case OptionIpcSocketGroup:
+		return l.group, nil
 	}
 	return nil, mangos.ErrBadOption
 }
